@@ -189,14 +189,14 @@ inductive RKind where
   | properties  -- /Properties  (BDC, DP with a name operand)
 deriving DecidableEq, Repr, Inhabited
 
-/-- the categories `deep_clone_op` looks at -/
+/-- the categories `deep_clone_op` looks at (`properties` since the repair of that part of D40) -/
 def handled : RKind → Bool
-  | .gs | .font | .xobject => true
+  | .gs | .font | .xobject | .properties => true
   | _ => false
 
 /-- content-stream operations as far as importing is concerned -/
 inductive OpM where
-  | use (k : RKind) (name : Nat)     -- names a resource of category `k`
+  | use (k : RKind) (name : Nat)     -- names a resource of category `k` (gs, Tf, Do, cs/CS, scn/SCN, sh, BDC/DP with a name)
   | inline (kids : List Edge)        -- carries a direct value with references (BDC/DP property lists)
   | other (tag : Nat)                -- anything else: cloned verbatim
 deriving DecidableEq, Repr, Inhabited
